@@ -27,21 +27,29 @@ CLAIMS = {
              "ring-buffer model holds exactly the last min(cap,count) transitions at slots k mod cap, that len = min(cap,count), "
              "that uniform samples are stored and distinct, that clear resets, and that the bounded deque of the multi-agent "
              "buffer is the last-N suffix; the model is tied to the real ReplayBuffer / MultiAgentReplayBuffer by differential "
-             "op-sequence runs on every invocation, with an independent last-N oracle.",
+             "op-sequence runs on every invocation, with an independent last-N oracle. In addition harness/py2lean_ring.py "
+             "translates the source text of ReplayBuffer.{add,clear,sample,__len__} and of the MultiAgentReplayBuffer deque logic "
+             "into lean/Gen/RingGen.lean on every run; Proofs/RingGenEq.lean proves the generated definitions equal to the model "
+             "and seven C09_source_translation_* theorems restate the property over them.",
         note=COMMON_NOTE + " Ids are encoded in every field of a transition, so decoded-id equality stands for 'fields belong together'.",
-        technique="Lean 4 proof (induction over op sequences, refinement to last-N history) + model/implementation correspondence",
+        technique="Lean 4 proof (induction over op sequences, refinement to last-N history) + model/implementation correspondence "
+                  "+ source-to-Lean translation of the buffer code re-proved equal to the model on every run",
         ref="DESIGN.md §3 C09"),
     "C10": dict(
-        text="Lean theorems (lean/Props/C10.lean, 13) over Model/NStep.lean prove for every window, stream, n, discount and number "
+        text="Lean theorems (lean/Props/C10.lean, 18) over Model/NStep.lean prove for every window, stream, n, discount and number "
              "of environments: the fused record is the discounted sum over the first k rows (k = 1 + index of the first row with "
              "any done, row 0 included, capped at n) with next_obs/done of row k-1 and obs/action of row 0; nothing after a "
              "terminal row enters it (also across arbitrary streams); the k-th n-step record and the k-th 1-step record describe "
              "the same (obs, action), lifted through wrap-around of both buffers with the C09 ring theorems; witness theorems "
              "record the unrepaired behaviour. The real MultiStepReplayBuffer + ReplayBuffer/PER are driven exactly as "
-             "train_off_policy does and diffed with the model; an independent exact-Fraction oracle states the property.",
+             "train_off_policy does and diffed with the model; an independent exact-Fraction oracle states the property. In addition "
+             "harness/py2lean_nstep.py translates the source text of MultiStepReplayBuffer.add/_get_n_step_info into "
+             "lean/Gen/NStepGen.lean on every run; Proofs/NStepGenEq.lean proves it equal to the model (fold over any stream = run) "
+             "and five C10_source_translation_* theorems restate the property over the generated definitions.",
         note=COMMON_NOTE + " Not covered: train_off_policy passes only `done` (not truncation) and never clears the deque at env.reset(); "
              "index alignment needs equal capacities (witness theorem).",
-        technique="Lean 4 proof (induction over streams, reuse of the C09 ring refinement) + model/implementation correspondence",
+        technique="Lean 4 proof (induction over streams, reuse of the C09 ring refinement) + model/implementation correspondence "
+                  "+ source-to-Lean translation of the n-step code re-proved equal to the model on every run",
         ref="DESIGN.md §3 C10"),
     "C11": dict(
         text="Lean theorems (lean/Props/C11.lean, 17) over Model/SegTree.lean prove for every capacity and every legal op sequence: "
